@@ -20,6 +20,11 @@ LEAN_MODULES = ["AwsVerif.Props.C08"]
 COMPONENT = None           # the model is run by extra_stages (its input is the schedule the harness took)
 NEEDS_DRIVER = True
 MODEL_COMPONENT = "tsched"
+# harness/tsched.c records wall-clock hangs here and stops running cases after three of them (a mutated tree that hangs
+# everywhere would otherwise cost a watchdog period per case)
+_HANG_FILE = os.path.join(cbuild.CACHE, f"c08-hangs-{os.getpid()}")
+C_ENV = {"TSCHED_HANG_FILE": _HANG_FILE}
+RERUN_STALL_S = 20
 P_DIFF_CONCRETE = False   # a model/implementation difference is conformance drift; the oracle decides violations
 TIMEOUT = 900
 _SCHED_FLAGS = ["-include", detsched.ATOMICS_H, "-DUSE_SIMD_ENCODING"]
@@ -55,43 +60,136 @@ START_NS = 1000000000
 
 
 # ------------------------------------------------------------------ structural bridge to the source
-_INIT_BEFORE_LAUNCH = [
-    "scheduler->allocator = allocator",
-    "aws_mutex_init(&scheduler->thread_data.mutex)",
-    "aws_condition_variable_init(&scheduler->thread_data.c_var)",
-    "aws_task_scheduler_init(&scheduler->scheduler",
-    "aws_atomic_init_int(&scheduler->should_exit",
-    "aws_ref_count_init(&scheduler->ref_count",
-    "aws_linked_list_init(&scheduler->thread_data.scheduling_queue)",
-    "aws_linked_list_init(&scheduler->thread_data.cancel_queue)",
-]
+# The model's program points are the sync operations of thread_scheduler.c in the order below, and what is done between a
+# lock and its unlock is one atomic critical section.  detsched only switches threads AT sync operations, so moving a plain
+# statement across one (a store after the unlock, a queue operation outside the lock, the launch before an initialisation)
+# cannot be seen by any run; it is checked on the source instead: every function's anchors must occur in this order.
+_SKELETON = {
+    "struct aws_thread_scheduler *aws_thread_scheduler_new(": [
+        "aws_thread_init(&scheduler->thread, allocator)",
+        "aws_mutex_init(&scheduler->thread_data.mutex)",
+        "aws_condition_variable_init(&scheduler->thread_data.c_var)",
+        "aws_task_scheduler_init(&scheduler->scheduler",
+        "scheduler->allocator = allocator",
+        "aws_atomic_init_int(&scheduler->should_exit",
+        "aws_ref_count_init(&scheduler->ref_count",
+        "aws_linked_list_init(&scheduler->thread_data.scheduling_queue)",
+        "aws_linked_list_init(&scheduler->thread_data.cancel_queue)",
+        "aws_thread_launch(&scheduler->thread, s_thread_fn, scheduler",
+    ],
+    "void aws_thread_scheduler_schedule_future(": [
+        "task->timestamp = time_to_run",
+        "aws_mutex_lock(&scheduler->thread_data.mutex)",
+        "aws_linked_list_push_back(&scheduler->thread_data.scheduling_queue, &task->node)",
+        "aws_mutex_unlock(&scheduler->thread_data.mutex)",
+        "aws_condition_variable_notify_one(&scheduler->thread_data.c_var)",
+    ],
+    "void aws_thread_scheduler_cancel_task(": [
+        "aws_mem_calloc(scheduler->allocator, 1, sizeof(struct cancellation_node))",
+        "aws_mutex_lock(&scheduler->thread_data.mutex)",
+        "aws_linked_list_front(&scheduler->thread_data.scheduling_queue)",
+        "if (potential_task == task)",
+        "aws_linked_list_remove(&found_task->node)",
+        "cancellation_node->removed_from_scheduling_queue = true",
+        "cancellation_node->task_to_cancel = task",
+        "aws_linked_list_push_back(&scheduler->thread_data.cancel_queue, &cancellation_node->node)",
+        "aws_mutex_unlock(&scheduler->thread_data.mutex)",
+        "aws_condition_variable_notify_one(&scheduler->thread_data.c_var)",
+    ],
+    "static void s_process_cancellation(": [
+        "cancellation_node->task_to_cancel",
+        "if (cancellation_node->removed_from_scheduling_queue || task->abi_extension.scheduled)",
+        "aws_task_scheduler_cancel_task(&scheduler->scheduler, task)",
+        "aws_mem_release(scheduler->allocator, cancellation_node)",
+    ],
+    "static bool s_thread_should_wake(": [
+        "aws_high_res_clock_get_ticks(&current_time)",
+        "aws_task_scheduler_has_tasks(&scheduler->scheduler, &next_scheduled_task)",
+        "return aws_atomic_load_int(&scheduler->should_exit) ||",
+        "!aws_linked_list_empty(&scheduler->thread_data.scheduling_queue) ||",
+        "!aws_linked_list_empty(&scheduler->thread_data.cancel_queue) || (next_scheduled_task <= current_time)",
+    ],
+    "static void s_thread_fn(": [
+        "while (!aws_atomic_load_int(&scheduler->should_exit))",
+        "aws_mutex_lock(&scheduler->thread_data.mutex)",
+        "aws_linked_list_swap_contents(&scheduler->thread_data.scheduling_queue, &list_cpy)",
+        "aws_linked_list_swap_contents(&scheduler->thread_data.cancel_queue, &cancel_list_cpy)",
+        "aws_mutex_unlock(&scheduler->thread_data.mutex)",
+        "while (!aws_linked_list_empty(&list_cpy))",
+        "if (task->timestamp)",
+        "aws_task_scheduler_schedule_future(&scheduler->scheduler, task, task->timestamp)",
+        "aws_task_scheduler_schedule_now(&scheduler->scheduler, task)",
+        "while (!aws_linked_list_empty(&cancel_list_cpy))",
+        "s_process_cancellation(scheduler, cancellation_node)",
+        "aws_high_res_clock_get_ticks(&current_time)",
+        "aws_task_scheduler_run_all(&scheduler->scheduler, current_time)",
+        "aws_task_scheduler_has_tasks(&scheduler->scheduler, &next_scheduled_task)",
+        "if (next_scheduled_task == UINT64_MAX)",
+        "timeout = (int64_t)30 * (int64_t)AWS_TIMESTAMP_NANOS",
+        "timeout = (int64_t)(next_scheduled_task - current_time)",
+        "if (timeout > 0)",
+        "aws_mutex_lock(&scheduler->thread_data.mutex)",
+        "aws_condition_variable_wait_for_pred(",
+        "&scheduler->thread_data.c_var, &scheduler->thread_data.mutex, timeout, s_thread_should_wake, scheduler)",
+        "aws_mutex_unlock(&scheduler->thread_data.mutex)",
+    ],
+    "static void s_destroy_callback(": [
+        "aws_atomic_store_int(&scheduler->should_exit, 1U)",
+        "aws_condition_variable_notify_all(&scheduler->thread_data.c_var)",
+        "aws_thread_join(&scheduler->thread)",
+        "while (!aws_linked_list_empty(&scheduler->thread_data.scheduling_queue))",
+        "aws_linked_list_pop_front(&scheduler->thread_data.scheduling_queue)",
+        "if (task->timestamp)",
+        "while (!aws_linked_list_empty(&scheduler->thread_data.cancel_queue))",
+        "aws_linked_list_pop_front(&scheduler->thread_data.cancel_queue)",
+        "s_process_cancellation(scheduler, cancellation_node)",
+        "aws_task_scheduler_clean_up(&scheduler->scheduler)",
+        "aws_condition_variable_clean_up(&scheduler->thread_data.c_var)",
+        "aws_mutex_clean_up(&scheduler->thread_data.mutex)",
+        "aws_thread_clean_up(&scheduler->thread)",
+        "aws_mem_release(scheduler->allocator, scheduler)",
+    ],
+}
+
+
+def _function_body(src, header):
+    i = src.find(header)
+    if i < 0:
+        return None
+    j = src.find("{", i)
+    depth, k = 0, j
+    while k < len(src):
+        if src[k] == "{":
+            depth += 1
+        elif src[k] == "}":
+            depth -= 1
+            if depth == 0:
+                return src[j:k + 1]
+        k += 1
+    return None
 
 
 def regen(ctx):
-    """The model's initial state has every field the scheduler thread reads initialised before the thread takes its
-    first step.  detsched cannot preempt between pthread_create returning and the plain stores that follow it, so this
-    happens-before edge is checked on the source: in aws_thread_scheduler_new every initialisation precedes
-    aws_thread_launch.  A failure is a broken correspondence (reported like a translator rejection)."""
+    """checks the sync skeleton of thread_scheduler.c against the one the model was written from (see _SKELETON); a
+    failure is a broken correspondence (reported like a translator rejection, `no-failing-input-found`)."""
     path = os.path.join(cbuild.REPO, "source", "thread_scheduler.c")
     try:
         src = open(path).read()
     except OSError as e:
         raise GenError(f"cannot read {path}: {e}")
-    i = src.find("struct aws_thread_scheduler *aws_thread_scheduler_new(")
-    j = src.find("\nvoid aws_thread_scheduler_acquire", i)
-    if i < 0 or j < 0:
-        raise GenError("aws_thread_scheduler_new not found in source/thread_scheduler.c")
-    body = src[i:j]
-    k = body.find("aws_thread_launch(&scheduler->thread, s_thread_fn, scheduler")
-    if k < 0:
-        raise GenError("aws_thread_scheduler_new: the launch of s_thread_fn was not found")
-    for tok in _INIT_BEFORE_LAUNCH:
-        p = body.find(tok)
-        if p < 0:
-            raise GenError(f"aws_thread_scheduler_new: initialisation `{tok}` not found (model assumes it happens before the thread starts)")
-        if p > k:
-            raise GenError(f"aws_thread_scheduler_new launches the scheduler thread before `{tok}`: the thread can run on an "
-                           "uninitialised field (the model's initial state is not established)")
+    for header, anchors in _SKELETON.items():
+        name = header.split("(")[0].split()[-1].lstrip("*")
+        body = _function_body(src, header)
+        if body is None:
+            raise GenError(f"{name} not found in source/thread_scheduler.c")
+        pos = 0
+        for a in anchors:
+            p = body.find(a, pos)
+            if p < 0:
+                where = "is missing" if body.find(a) < 0 else "comes too early"
+                raise GenError(f"{name}: `{a}` {where}: the function's sync skeleton is no longer the modelled one "
+                               "(order of lock / queue operation / unlock / notify / launch / clean-up steps)")
+            pos = p + len(a)
 
 
 # ------------------------------------------------------------------ scenarios
@@ -374,6 +472,9 @@ def record(exe, specs, jobs=16):
 
 
 def gen_cases(rng, tier):
+    os.makedirs(cbuild.CACHE, exist_ok=True)
+    if os.path.exists(_HANG_FILE):
+        os.remove(_HANG_FILE)
     exe = cbuild.build_harness(**HARNESS)
     quick = tier == "quick"
     specs = []
@@ -473,6 +574,8 @@ def oracle(case, lines):
             leak = int(t[2])
         elif l.startswith("P sched "):
             sched_ok = l
+        elif l.startswith("P MONITOR not run"):
+            return []   # the harness stopped running cases after repeated hangs (those are reported as crashes)
         elif l.startswith("P MONITOR") or l.startswith("H harness-assert"):
             errs.append("harness: " + l)
         elif l == "bad-op":
@@ -669,6 +772,10 @@ def _compare(ctx, cases, c_out):
 
 
 def extra_stages(ctx):
+    try:
+        os.remove(_HANG_FILE)
+    except OSError:
+        pass
     cases, c_out = _LAST.get("cases"), _LAST.get("c_out")
     if not cases or c_out is None or not ctx.lean_ok and not os.path.exists(
             os.path.join(cbuild.VERIF, "lean", ".lake", "build", "bin", "awsmodel")):
